@@ -10,6 +10,7 @@ pub mod c05;
 pub mod c06;
 pub mod c07;
 pub mod c08;
+pub mod c09;
 pub mod c16;
 
 macro_rules! dispatch {
@@ -22,6 +23,7 @@ macro_rules! dispatch {
             "C06" => c06::$f($ctx $(, $arg)*),
             "C07" => c07::$f($ctx $(, $arg)*),
             "C08" => c08::$f($ctx $(, $arg)*),
+            "C09" => c09::$f($ctx $(, $arg)*),
             "C16" => c16::$f($ctx $(, $arg)*),
             other => {
                 let msg = format!("no monitor for property {}", other);
